@@ -139,6 +139,7 @@ class Opaque:
 
 # ----------------------------------------------------------------------------- context
 _TSORT = None
+_FSORT = {}
 
 
 class Ctx:
@@ -146,7 +147,9 @@ class Ctx:
         self.finite = finite
         self._n = itertools.count()
         if finite:
-            self.Name, self.name_consts = z3.EnumSort("Name", [f"nm{i}" for i in range(finite)])
+            if finite not in _FSORT:
+                _FSORT[finite] = z3.EnumSort(f"NameF{finite}", [f"nm{finite}_{i}" for i in range(finite)])
+            self.Name, self.name_consts = _FSORT[finite]
         else:
             self.Name = z3.DeclareSort("Name")
         global _TSORT
@@ -163,6 +166,7 @@ class Ctx:
         self.card_fns = {}
         self.def_ids = set()  # ids of definitional axioms (fresh constant := comprehension)
         self.strfacts = []
+        self.exist_consts = []  # constants of a contract that are existentially quantified in refinement goals
         self.scope_vars = []  # enclosing universally quantified loop variables (for Skolem cards)
         # blackbox pin sets
         self.bb_in = z3.Function("bb_inputs", self.BB, self.Name, z3.BoolSort())
@@ -274,6 +278,11 @@ class Ctx:
 
     # -- obligations
     def oblige(self, oid, hyps, goal, kind="assert", line=None):
+        base, k = oid, 1
+        seen = {o["id"] for o in self.obligations}
+        while oid in seen:  # ids are unique: the k-th obligation of the same name gets a path ordinal
+            k += 1
+            oid = f"{base}~{k}"
         self.obligations.append({"id": oid, "kind": kind, "hyps": list(hyps), "goal": goal, "line": line})
 
 
@@ -414,7 +423,54 @@ def find_function(relpath, qual):
             raise KeyError(f"{relpath}::{qual}")
         node = found
     seg = ast.get_source_segment(src, node)
+    mut = os.environ.get("PYVC_MUTATE")
+    if mut:
+        mq, spec_ = mut.split("::", 1)
+        if mq == qual:
+            import copy as _copy
+            node = mutate(_copy.deepcopy(node), spec_)
     return node, seg, hashlib.sha256(seg.encode()).hexdigest()[:16]
+
+
+def mutation_sites(node):
+    """(kind, index) of every in-memory mutation applicable to a function AST (vacuity guard, DESIGN 7 (iv))"""
+    sites = []
+    ifs = [n for n in ast.walk(node) if isinstance(n, (ast.If, ast.While))]
+    sites += [("negate", i) for i in range(len(ifs))]
+    stmts = [n for n in ast.walk(node) if isinstance(n, (ast.Expr, ast.Assign, ast.AugAssign, ast.Raise)) and not (isinstance(n, ast.Expr) and isinstance(n.value, ast.Constant))]
+    sites += [("drop", i) for i in range(len(stmts))]
+    consts = [n for n in ast.walk(node) if isinstance(n, ast.Constant) and isinstance(n.value, str) and n.value in SUPPORTED]
+    sites += [("const", i) for i in range(len(consts))]
+    cmps = [n for n in ast.walk(node) if isinstance(n, ast.Compare) and isinstance(n.ops[0], (ast.Gt, ast.Lt, ast.GtE, ast.LtE))]
+    sites += [("cmp", i) for i in range(len(cmps))]
+    return sites
+
+
+def mutate(node, spec_):
+    kind, idx = spec_.split(":")[:2]
+    idx = int(idx)
+    if kind == "negate":
+        tgt = [n for n in ast.walk(node) if isinstance(n, (ast.If, ast.While))][idx]
+        tgt.test = ast.copy_location(ast.UnaryOp(op=ast.Not(), operand=tgt.test), tgt.test)
+    elif kind == "drop":
+        stmts = [n for n in ast.walk(node) if isinstance(n, (ast.Expr, ast.Assign, ast.AugAssign, ast.Raise)) and not (isinstance(n, ast.Expr) and isinstance(n.value, ast.Constant))]
+        victim = stmts[idx]
+        for parent in ast.walk(node):
+            for field in ("body", "orelse", "finalbody"):
+                lst = getattr(parent, field, None)
+                if isinstance(lst, list) and victim in lst:
+                    lst[lst.index(victim)] = ast.copy_location(ast.Pass(), victim)
+    elif kind == "const":
+        consts = [n for n in ast.walk(node) if isinstance(n, ast.Constant) and isinstance(n.value, str) and n.value in SUPPORTED]
+        c = consts[idx]
+        c.value = SUPPORTED[(SUPPORTED.index(c.value) + 5) % len(SUPPORTED)]
+    elif kind == "cmp":
+        cmps = [n for n in ast.walk(node) if isinstance(n, ast.Compare) and isinstance(n.ops[0], (ast.Gt, ast.Lt, ast.GtE, ast.LtE))]
+        c = cmps[idx]
+        swap = {ast.Gt: ast.GtE, ast.GtE: ast.Gt, ast.Lt: ast.LtE, ast.LtE: ast.Lt}
+        c.ops[0] = swap[type(c.ops[0])]()
+    ast.fix_missing_locations(node)
+    return node
 
 
 def module_constants(relpath):
